@@ -428,3 +428,25 @@ func init() {
 		ruleSendNaming(c, "C15-R2")
 	})
 }
+
+func init() {
+	register("C17", propMeta{
+		Explanation: staticNote + "Decides lock discipline and cancellation structurally: (R1) guarded-by: every access to the fields the repository documents as mutex-protected happens with the mutex of the same object held (all functions of the concurrent packages, helpers inlined two levels so locks held by callers count); (R2) the cleaner's committed map is a private copy, never an alias of the sync loop's map; (R3) no blocking operation (channel operation without default, storage call, sleep, token acquire, publish) while a mutex is held — reports the known Publish-under-lock defect; sends to and closes of subscriber channels are serialised by the topic's mutex; (R4) nested lock acquisitions are acyclic; (R5) GetGlobal returns the storage only when non-nil and panics only if still nil after waiting; (R6) every unbounded loop of the goroutine bodies passes a cancellation point on every cycle; (R7) Token.Release is idempotent under its mutex.",
+		NotDecided:  "Races on fields outside the guarded-by table; third-party internals; the schedules themselves.",
+		Assumptions: []string{"the guarded-by table (from the field comments) is complete for shared mutable state"},
+	}, func(c *Check) {
+		c.Rule("C17-R1", "GUARDED-BY")
+		c.Rule("C17-R2", "COMMITTED-MAP-COPIED (no sharing of the sync loop's map with the cleaner)")
+		c.Rule("C17-R3", "NO-BLOCKING-UNDER-LOCK; close/send serialised")
+		c.Rule("C17-R4", "LOCK-ORDER acyclic")
+		c.Rule("C17-R5", "GETGLOBAL")
+		c.Rule("C17-R6", "CANCELLABLE-LOOPS")
+		c.Rule("C17-R7", "RELEASE-IDEMPOTENT / limiter")
+		ruleLockset(c, "C17-R1", "C17-R3", "C17-R4", "C17-R3")
+		ruleCommittedCopied(c, "C17-R2")
+		ruleTopicChannels(c, "C17-R3")
+		ruleGetGlobal(c, "C17-R5")
+		ruleCancellableLoops(c, "C17-R6")
+		ruleLimiter(c, "C17-R7")
+	})
+}
